@@ -19,10 +19,12 @@
    Call hypotheses: plain configuration (no codec suffix), record size > 0, not read-only (the read-only case is
    Props/C02.v C02_readonly_refuses), header-block counts >= 1 ([hb_env], as [hb_ok] in C01Rows.v), cleaned absolute
    names ([good]); Remove / RemoveAll not of the root and Rename not onto the root (as [call_ok] in the C01 theorem);
-   CreateFile: the corner of T02Counter.v (2) is excluded (the name is not an existing regular file) and sizes are
-   below 10^40; there is no hypothesis on the process identity: a new file written through its handle is owned by
-   the creating process (the flush keeps the owner of the entry, T02Counter.v (1)); what the call does on an
-   existing regular file is [T02_create_file_existing] (the reference, except that the modification time is kept).
+   CreateFile: sizes are below 10^40 and the corner of T02Counter.v (2) is excluded (nothing is written to an existing
+   EMPTY regular file: the call then does nothing, the reference stamps the modification time); every other CreateFile
+   - on a new name, on a directory, on an existing regular file, with or without content - has the reference's outcome
+   and effect: the flush of written content stamps the modification time (Fs.stamp_mtime) and keeps the owner of the
+   entry, so there is no hypothesis on the process identity (T02Counter.v (1)); what the call does on an existing
+   regular file, the corner included, is [T02_create_file_existing] / [T02_create_file_existing_empty].
    Every hypothesis that excludes a behaviour has a compiled example in T02Counter.v; the statements were tested
    with vm_compute on concrete states before they were proved (T02Test.v: 322 calls in each of 3 states), and
    T02Demo.v applies [T02_history] to a concrete history (the hypotheses are decidable there).
@@ -165,11 +167,16 @@ Proof.
   eapply closed_ns_eq; [apply ns_eq_sym; exact Eq|]. apply closed_ch; [reflexivity|assumption].
 Qed.
 
-(* Create; Write d; Close.  [create_pre]: the corner of T02Counter.v (2) - an existing regular file - is excluded;
-   any process identity, with or without content *)
+(* Create; Write d; Close, with or without content, by any process identity, on a new name, a directory or an existing
+   regular file.  [create_pre]: sizes below 10^40, and the one corner of T02Counter.v (2) is excluded - NOTHING is
+   written ([d = []]) to an existing EMPTY regular file: the handle is closed without a flush, no record is written,
+   and the entry keeps its modification time, where the reference stamps it ([T02_create_file_existing]). *)
 Definition create_pre (a : ns) (n : str) (d : content) : Prop :=
   clen d < 10 ^ 40 /\
-  match lookup a n with Some v => is_dir v = true | None => True end.
+  match lookup a n with
+  | Some v => is_dir v = true \/ (n_size v =? 0) && no_content d = false
+  | None => True
+  end.
 
 Theorem T02_create_file : forall s e n d, Good hr c s -> hb_env e -> good n -> create_pre (abs s) n d ->
   let '(s', o) := step c (with_env s e) (CCreateFile n d) in
@@ -183,40 +190,36 @@ Proof.
   eapply closed_ns_eq; [apply ns_eq_sym; exact Eq|]. apply closed_create_file; assumption.
 Qed.
 
-(* the excluded corner, as a theorem about the implementation: Create; Write d; Close on an EXISTING regular file replaces
-   content, size and content position, keeps mode, owner / group, access and change time AND the modification time
-   ([flushed_node]); nothing happens when the file is empty and d is empty.  (The reference [spec_create_file] does the
-   same except that it stamps the modification time: T02Counter.v (2), and [T02_create_file_existing_reference]
-   below.) *)
+(* the implementation on an EXISTING regular file, the excluded corner included: Create; Write d; Close replaces content,
+   size and content position, stamps the modification time and keeps mode, owner / group, access and change time
+   ([flushed_node]); nothing happens when the file is empty and d is empty *)
 Theorem T02_create_file_existing : forall s e n d v, Good hr c s -> hb_env e -> good n -> n <> [slash] -> clen d < 10 ^ 40 ->
   lookup (abs s) n = Some v -> is_dir v = false ->
   let '(s', o) := step c (with_env s e) (CCreateFile n d) in
   exists cid, Good hr c s' /\ o = OOk /\
-    ns_eq (abs s') (if (n_size v =? 0) && (clen d =? 0) && match d with [] => true | _ => false end
-                    then abs s else ns_upd (abs s) n (flushed_node (clen d) cid)).
+    ns_eq (abs s') (if (n_size v =? 0) && no_content d
+                    then abs s else ns_upd (abs s) n (flushed_node (clen d) (ev_now e) cid)).
 Proof.
   intros s e n d v HG Hhb G Hn Hlen Hv Hnd. start HG Hhb s e.
   assert (Hpar : spec_parent (abs s) n = OOk).
   { unfold spec_parent. destruct (parent_below n G Hn) as (Hb & Gp).
     destruct (Hcl0 n v Hv (path_dir n) Gp Hb) as (pd & Hpd & Hdir). rewrite Hpd, Hdir. reflexivity. }
   destruct (T02_create_existing hr c HP Hrs Hro (with_env s e) n d v HW0 Hhb0 G Hlen Hv Hnd Hpar) as (s' & cid & E & HW' & _ & Eq).
-  rewrite E. change (abs (with_env s e)) with (abs s) in *.
+  rewrite E. change (abs (with_env s e)) with (abs s) in *. change (clk (with_env s e)) with (ev_now e) in *.
   exists cid. split; [split; [exact HW'|]|split; [reflexivity|exact Eq]].
   eapply closed_ns_eq; [apply ns_eq_sym; exact Eq|].
-  destruct ((n_size v =? 0) && (clen d =? 0) && match d with [] => true | _ => false end); [exact Hcl0|].
+  destruct ((n_size v =? 0) && no_content d); [exact Hcl0|].
   apply closed_upd; [|exact Hcl0]. intros v0 Hv0. rewrite Hv in Hv0. inversion Hv0; subst v0. rewrite Hnd. reflexivity.
 Qed.
 
-(* the same against the reference: the outcome is the reference's, and - unless nothing is written to an empty file,
-   where nothing changes at all - the namespace is the reference's with the old modification time put back; owner,
-   group, mode, access and change time, size and content position are the reference's *)
+(* the same against the reference: the outcome is the reference's, and the namespace is the reference's - unless nothing
+   is written to an empty file, where nothing changes at all (the reference stamps the modification time) *)
 Theorem T02_create_file_existing_reference : forall s e n d v, Good hr c s -> hb_env e -> good n -> n <> [slash] -> clen d < 10 ^ 40 ->
   lookup (abs s) n = Some v -> is_dir v = false ->
   let '(s', o) := step c (with_env s e) (CCreateFile n d) in
   exists cid, Good hr c s' /\ o = snd (spec_create_file c (abs s) n (clen d) (ev_now e) cid) /\
-    if (n_size v =? 0) && match d with [] => true | _ => false end then ns_eq (abs s') (abs s)
-    else ns_eq (abs s') (ns_upd (fst (spec_create_file c (abs s) n (clen d) (ev_now e) cid)) n
-                                (with_times (n_atime v) (n_mtime v))).
+    if (n_size v =? 0) && no_content d then ns_eq (abs s') (abs s)
+    else ns_eq (abs s') (fst (spec_create_file c (abs s) n (clen d) (ev_now e) cid)).
 Proof.
   intros s e n d v HG Hhb G Hn Hlen Hv Hnd.
   assert (Hpar : spec_parent (abs s) n = OOk).
@@ -225,12 +228,28 @@ Proof.
   pose proof (T02_create_file_existing s e n d v HG Hhb G Hn Hlen Hv Hnd) as K.
   destruct (step c (with_env s e) (CCreateFile n d)) as [s' o]. destruct K as (cid & HG' & Eo & Eq).
   exists cid. split; [exact HG'|]. unfold spec_create_file. rewrite Hpar, Hv, Hnd. cbn [fst snd]. split; [exact Eo|].
-  assert (Ec : (n_size v =? 0) && (clen d =? 0) && match d with [] => true | _ => false end
-               = (n_size v =? 0) && match d with [] => true | _ => false end).
-  { destruct d; [cbn [clen fold_right N.eqb]; rewrite andb_true_r; reflexivity|rewrite !andb_false_r; reflexivity]. }
-  rewrite Ec in Eq. destruct ((n_size v =? 0) && match d with [] => true | _ => false end); [exact Eq|].
-  intro m. rewrite (Eq m), !lookup_ns_upd. destruct (eqb_str m n) eqn:E; [|reflexivity].
-  rewrite eqb_str_refl, Hv. reflexivity.
+  destruct ((n_size v =? 0) && no_content d); exact Eq.
+Qed.
+
+(* the excluded corner on its own: Create; Close without a write on an existing empty regular file succeeds (as in the
+   reference) and changes nothing; in the reference the entry's modification time becomes the clock's *)
+Theorem T02_create_file_existing_empty : forall s e n v, Good hr c s -> hb_env e -> good n -> n <> [slash] ->
+  lookup (abs s) n = Some v -> is_dir v = false -> n_size v = 0 ->
+  let '(s', o) := step c (with_env s e) (CCreateFile n []) in
+  Good hr c s' /\ ns_eq (abs s') (abs s) /\
+  forall cid, o = snd (spec_create_file c (abs s) n 0 (ev_now e) cid) /\
+    option_map n_mtime (lookup (fst (spec_create_file c (abs s) n 0 (ev_now e) cid)) n) = Some (ev_now e).
+Proof.
+  intros s e n v HG Hhb G Hn Hv Hnd Hsz.
+  assert (Hpar : spec_parent (abs s) n = OOk).
+  { unfold spec_parent. destruct (parent_below n G Hn) as (Hb & Gp).
+    destruct (g_closed _ _ _ HG n v Hv (path_dir n) Gp Hb) as (pd & Hpd & Hdir). rewrite Hpd, Hdir. reflexivity. }
+  pose proof (T02_create_file_existing s e n [] v HG Hhb G Hn ltac:(reflexivity) Hv Hnd) as K.
+  destruct (step c (with_env s e) (CCreateFile n [])) as [s' o]. destruct K as (cid0 & HG' & Eo & Eq).
+  rewrite Hsz in Eq. cbn [N.eqb no_content andb] in Eq.
+  split; [exact HG'|]. split; [exact Eq|]. intro cid.
+  unfold spec_create_file. rewrite Hpar, Hv, Hnd. cbn [fst snd]. split; [exact Eo|].
+  rewrite lookup_ns_upd, eqb_str_refl, Hv. reflexivity.
 Qed.
 
 (* ---------- all call kinds at once, and histories *)
@@ -315,3 +334,4 @@ Print Assumptions T02_history.
 Print Assumptions Good_init.
 Print Assumptions T02_create_file_existing.
 Print Assumptions T02_create_file_existing_reference.
+Print Assumptions T02_create_file_existing_empty.
